@@ -420,3 +420,106 @@ pub fn case_last(it: CaseWrap) -> Option<char> {
 pub fn case_fold<B, F: FnMut(B, char) -> B>(it: CaseWrap, init: B, f: F) -> B {
     arr_iter_fold(it.0 .0, init, f)
 }
+
+/// stands in for `core::str::Chars<'a>` { iter: slice::Iter<'a, u8> }
+pub struct CharsShim<'a> {
+    iter: SliceIter<'a, u8>,
+}
+
+/// `core::str::<impl str>::chars`
+pub fn str_chars<'a>(s: &'a str) -> CharsShim<'a> {
+    CharsShim { iter: slice_iter(s.as_bytes()) }
+}
+
+/// stands in for `core::iter::Copied<I>` { it: I }
+pub struct CopiedShim<I> {
+    it: I,
+}
+
+/// stands in for `core::str::Bytes<'a>`(Copied<slice::Iter<'a, u8>>)
+pub struct BytesShim<'a>(CopiedShim<SliceIter<'a, u8>>);
+
+/// `core::str::<impl str>::bytes`
+pub fn str_bytes<'a>(s: &'a str) -> BytesShim<'a> {
+    BytesShim(CopiedShim { it: slice_iter(s.as_bytes()) })
+}
+
+/// stands in for `core::str::CharIndices<'a>` { front_offset: usize, iter: Chars<'a> }
+pub struct CharIndicesShim<'a> {
+    front_offset: usize,
+    iter: CharsShim<'a>,
+}
+
+/// `core::str::<impl str>::char_indices`
+pub fn str_char_indices<'a>(s: &'a str) -> CharIndicesShim<'a> {
+    CharIndicesShim { front_offset: 0, iter: str_chars(s) }
+}
+
+/// `<core::slice::Iter<'_, T> as ExactSizeIterator>::is_empty`
+pub fn iter_is_empty<'a, T>(it: &SliceIter<'a, T>) -> bool {
+    it.i == it.j
+}
+
+/// `<core::array::IntoIter<T, N> as ExactSizeIterator>::is_empty`
+pub fn arr_iter_is_empty<T: Copy, const N: usize>(it: &ArrIter<T, N>) -> bool {
+    it.i == it.j
+}
+
+/// one UTF-8 scalar from the byte iterator (the text of a `&str` is valid UTF-8, so continuation bytes are there);
+/// mirrors `core::str::validations::next_code_point`
+fn decode_next<'a>(it: &mut SliceIter<'a, u8>) -> Option<u32> {
+    let x = *iter_next(it)?;
+    if x < 128 {
+        return Some(x as u32);
+    }
+    let init = (x & (0x7F >> 2)) as u32;
+    let y = match iter_next(it) { Some(b) => *b, None => 0 };
+    let mut ch = (init << 6) | (y & 0x3F) as u32;
+    if x >= 0xE0 {
+        let z = match iter_next(it) { Some(b) => *b, None => 0 };
+        let y_z = (((y & 0x3F) as u32) << 6) | (z & 0x3F) as u32;
+        ch = (init << 12) | y_z;
+        if x >= 0xF0 {
+            let w = match iter_next(it) { Some(b) => *b, None => 0 };
+            ch = ((init & 7) << 18) | (y_z << 6) | (w & 0x3F) as u32;
+        }
+    }
+    Some(ch)
+}
+
+/// `<core::str::Chars<'a> as Iterator>::nth` (core's version skips ahead over raw chunks; same result)
+pub fn chars_nth<'a>(it: &mut CharsShim<'a>, n: usize) -> Option<char> {
+    let mut k = 0usize;
+    while k < n {
+        decode_next(&mut it.iter)?;
+        k += 1;
+    }
+    match decode_next(&mut it.iter) {
+        Some(c) => char::from_u32(c),
+        None => None,
+    }
+}
+
+/// `<core::str::Chars<'a> as Iterator>::advance_by` (what the default `nth` / `skip` call)
+pub fn chars_advance_by<'a>(it: &mut CharsShim<'a>, n: usize) -> Result<(), core::num::NonZero<usize>> {
+    let mut rem = n;
+    while rem > 0 {
+        if decode_next(&mut it.iter).is_none() {
+            break;
+        }
+        rem -= 1;
+    }
+    match core::num::NonZero::new(rem) {
+        None => Ok(()),
+        Some(r) => Err(r),
+    }
+}
+
+/// `<core::str::Chars<'a> as Iterator>::count`
+pub fn chars_count<'a>(mut it: CharsShim<'a>) -> usize {
+    let mut n = 0usize;
+    while decode_next(&mut it.iter).is_some() {
+        n += 1;
+    }
+    n
+}
